@@ -22,7 +22,15 @@
 (*      deadline; after the drain: no key, no waiter, no timer entry, no   *)
 (*      clients / sessions entry of an ended connection); the disconnect   *)
 (*      itself ends; the server survives it                                *)
-(*   W3 holds stay valid until unlocked or expired                         *)
+(*   W3 holds stay valid until unlocked or expired; more precisely, what a  *)
+(*      connection leaves behind (holds, queued requests) changes only by  *)
+(*      an unlock / expiry / grant / timeout of THAT request, whatever     *)
+(*      traffic other connections produce afterwards: same key, LockId,    *)
+(*      depth, deadline, RequestId and terms in every later snapshot; an   *)
+(*      unlock by its LockId from another connection is accepted, once; no *)
+(*      lock is granted over it before its deadline; it is gone after its  *)
+(*      deadline; no command object is shared by two live lock records or  *)
+(*      sits in a free pool (the server recycles them per connection)      *)
 (*   W4 replies go to the requester, or after its end to a connection that *)
 (*      announced the same id - never to another one; with such a          *)
 (*      successor in place they are delivered, not lost                    *)
@@ -54,6 +62,11 @@ Check(mm, cond, code, detail) == IF cond THEN mm ELSE Report(mm, code, detail)
 M0 == [ conns |-> EmptyFn, reqs |-> EmptyFn, users |-> EmptyFn, textq |-> EmptyFn,
         holds |-> {}, maybe |-> {}, last |-> [keys |-> <<>>, t |-> 0], drained |-> FALSE, crashed |-> FALSE,
         lastc |-> 0,      \* the connection whose Close() was started or resumed last
+        \* what a connection left behind when it ended (from the snapshot right before its disconnect):
+        \* holds and queued requests of its own plain LOCK requests, with every field the lock table shows
+        lefth |-> {}, leftw |-> {},
+        touched |-> {},   \* <<key, lid>> of left-behind state that some later request named (unlock, re-lock, ...)
+        unl |-> EmptyFn,  \* <<key, lid>> of a left-behind hold -> accepted unlocks seen
         nv |-> 0, t |-> 0, tr |-> 0, name |-> "" ]
 
 -----------------------------------------------------------------------------
@@ -103,13 +116,19 @@ StepReq(mm, e) ==
     \* was never created, or 0xff) can only end in UNKNOWN_DB and touches no key: it counts as a user of none
     LET db == IF Has(e, "db") THEN e.db ELSE 0
         r  == [id |-> e.id, c |-> e.c, kind |-> e.kind, cmd |-> e.cmd, will |-> e.will, key |-> e.key, lid |-> e.lid,
-               to |-> e.to, ex |-> e.ex, rc |-> e.rc, t |-> e.t, nterm |-> 0, db |-> db]
+               to |-> e.to, ex |-> e.ex, rc |-> e.rc, cnt |-> e.cnt, t |-> e.t, nterm |-> 0, db |-> db,
+               \* an unlock by the LockId of an intact left-behind hold, before its deadline, has to be accepted
+               must0 |-> /\ e.cmd = "U" /\ ~e.will /\ db = 0 /\ ~mm.drained
+                         /\ \E x \in mm.lefth : /\ x.key = e.key /\ x.lid = e.lid /\ mm.conns[x.c].st = "closed"
+                                                /\ <<x.key, x.lid>> \notin mm.touched \cup mm.maybe /\ e.t + 1 < x.exp]
         u  == IF e.key \in DOMAIN mm.users THEN mm.users[e.key] ELSE {}
         m1 == [mm EXCEPT !.t = e.t, !.reqs = SetFn(@, e.id, r), !.users = SetFn(@, e.key, IF db = 0 THEN u \cup {e.c} ELSE u),
                          !.conns[e.c].wills = IF e.will THEN Append(@, e.id) ELSE @,
                          !.textq[e.c] = IF e.kind = "text" THEN Append(@, e.id) ELSE @,
                          \* an unlock that was sent (or willed) may release the hold without us seeing the reply
-                         !.maybe = IF e.cmd = "U" /\ db = 0 THEN @ \cup {<<e.key, e.lid>>} ELSE @]
+                         !.maybe = IF e.cmd = "U" /\ db = 0 THEN @ \cup {<<e.key, e.lid>>} ELSE @,
+                         !.touched = IF db = 0 /\ \E x \in mm.lefth \cup mm.leftw : x.key = e.key /\ x.lid = e.lid
+                                     THEN @ \cup {<<e.key, e.lid>>} ELSE @]
     IN m1
 
 \* a reply for request id was read on connection c
@@ -135,7 +154,21 @@ Account(mm, id, c, res, ct, e) ==
         m4 == Check(m3, ~(r.will /\ (r.cmd = "U" \/ r.to = 0) /\ res # EXPRIED /\ r.nterm = 0 /\ Later # {}), "wills-executed-out-of-order",
                     [c |-> o, kind |-> O.kind, rid |-> id, overtaken_by |-> SetToSeq(Later), evidence |-> "order of the will replies on the successor"])
         hold == [key |-> r.key, lid |-> r.lid, c |-> o, t |-> e.t, ex |-> r.ex, rid |-> id]
-    IN [m4 EXCEPT !.reqs[id].nterm = IF res # EXPRIED THEN @ + 1 ELSE @,
+        \* left-behind holds: unlock by the original LockId is accepted (once per depth); nothing is granted over them
+        m5 == Check(m4, ~(r.must0 /\ res # 0 /\ r.nterm = 0), "left-behind-hold-not-unlockable",
+                    [key |-> r.key, lid |-> r.lid, res |-> res, by |-> o])
+        Mine == {x \in mm.lefth : x.key = r.key /\ x.lid = r.lid}
+        kl == <<r.key, r.lid>>
+        nunl == (IF kl \in DOMAIN mm.unl THEN mm.unl[kl] ELSE 0) + 1
+        isunl == r.cmd = "U" /\ res = 0 /\ r.db = 0 /\ Mine # {}
+        m6 == Check(m5, ~(isunl /\ \A x \in Mine : nunl > x.depth), "left-behind-hold-unlocked-twice",
+                    [key |-> r.key, lid |-> r.lid, accepted |-> nunl])
+        Over == {x \in mm.lefth : /\ x.key = r.key /\ x.lid # r.lid /\ mm.conns[x.c].st # "open" /\ ~mm.drained
+                                  /\ <<x.key, x.lid>> \notin mm.touched \cup mm.maybe /\ e.t + 1 < x.exp}
+        m7 == Check(m6, ~(r.cmd = "L" /\ res = 0 /\ r.db = 0 /\ r.cnt = 0 /\ Over # {}), "lock-granted-over-left-behind-hold",
+                    [key |-> r.key, lid |-> r.lid, rid |-> id, over |-> SetToSeq(Over)])
+    IN [m7 EXCEPT !.unl = IF isunl THEN SetFn(@, kl, nunl) ELSE @,
+                  !.reqs[id].nterm = IF res # EXPRIED THEN @ + 1 ELSE @,
                   !.holds = IF r.cmd = "L" /\ res = 0 /\ r.ex > 0 /\ r.db = 0 THEN @ \cup {hold} ELSE @,
                   !.maybe = IF res = EXPRIED THEN @ \cup {<<r.key, r.lid>>} ELSE @]
 
@@ -171,11 +204,29 @@ StepText(mm0, e) ==
                     IN Account(m2, id, e.c, e.res, 0, e)
                ELSE m1          \* +OK of a will registration, or an -ERR line
 
+\* what the connection leaves behind, read from the snapshot right before the disconnect: holders / waiters of its own
+\* plain LOCK requests that nobody asked to unlock and that no will names
+Own(mm, c, key, lid) ==
+    /\ \E id \in DOMAIN mm.reqs : LET r == mm.reqs[id] IN r.c = c /\ r.cmd = "L" /\ ~r.will /\ r.db = 0 /\ r.key = key /\ r.lid = lid
+    /\ ~\E id \in DOMAIN mm.reqs : LET r == mm.reqs[id] IN r.will /\ r.key = key /\ r.lid = lid
+    /\ <<key, lid>> \notin mm.maybe
+Db0Keys(snap) == {ks \in Range(snap.keys) : ks.db = 0}
+LeftH(mm, c) == UNION {{[c |-> c, key |-> ks.key, lid |-> hd.lid, depth |-> hd.depth, exp |-> hd.exp, rid |-> hd.rid, ex |-> hd.ex, rc |-> hd.rc] :
+                          hd \in {h \in Range(ks.holders) : Own(mm, c, ks.key, h.lid)}} : ks \in Db0Keys(mm.last)}
+ExOf(mm, c, key, lid) == LET I == {id \in DOMAIN mm.reqs : mm.reqs[id].c = c /\ mm.reqs[id].cmd = "L" /\ ~mm.reqs[id].will /\ mm.reqs[id].db = 0
+                                                             /\ mm.reqs[id].key = key /\ mm.reqs[id].lid = lid}
+                          IN IF I = {} THEN 0 ELSE mm.reqs[Max(I)].ex
+\* seen: when the lock table last showed it queued; ex: the expiry it asked for (if it is granted at g >= seen, the hold is
+\* visible until g + ex >= seen + ex)
+LeftW(mm, c) == UNION {{[c |-> c, key |-> ks.key, lid |-> w.lid, rid |-> w.rid, tot |-> w.tot, seen |-> mm.last.t, ex |-> ExOf(mm, c, ks.key, w.lid)] :
+                          w \in {x \in Range(ks.waiters) : Own(mm, c, ks.key, x.lid)}} : ks \in Db0Keys(mm.last)}
+
 \* the snapshot right before the disconnect is the baseline of the will-effect clause
 \* (a will is executed at the disconnect, or later when the driver parked it: its timeout counts from there)
 StepClose(mm, e) ==
     [mm EXCEPT !.t = e.t, !.conns[e.c].st = "closing", !.conns[e.c].closel = l, !.conns[e.c].closet = e.t,
                !.conns[e.c].pre = mm.last, !.lastc = e.c,
+               !.lefth = @ \cup LeftH(mm, e.c), !.leftw = @ \cup LeftW(mm, e.c),
                !.reqs = [id \in DOMAIN mm.reqs |-> IF mm.reqs[id].will /\ mm.reqs[id].c = e.c THEN [mm.reqs[id] EXCEPT !.t = e.t] ELSE mm.reqs[id]]]
 
 StepResume(mm, e) ==
@@ -277,8 +328,36 @@ StepSnap(mm0, e) ==
                     /\ r.will /\ r.cmd = "L" /\ r.db = 0 /\ mm.conns[r.c].st = "open"
                     /\ \A x \in DOMAIN mm.reqs : (x # w /\ mm.reqs[x].key = r.key /\ mm.reqs[x].lid = r.lid) => mm.reqs[x].will /\ mm.reqs[x].c = r.c
                     /\ \E ks \in Range(e.keys) : ks.key = r.key /\ \E hd \in Range(ks.holders) : hd.lid = r.lid}
-        m4 == Check(m3, Early = {}, "will-executed-before-disconnect",
+        m4a == Check(m3, Early = {}, "will-executed-before-disconnect",
                     [rids |-> SetToSeq(Early), evidence |-> "hold of a will-lock present while its connection is open"])
+        \* W3: left-behind state changes only by unlock / expiry / grant / timeout of THAT request
+        Intact(x) == <<x.key, x.lid>> \notin mm.touched \cup mm.maybe /\ ~mm.drained /\ ~mm.crashed /\ mm.conns[x.c].st # "open"
+        HoldersOf(key) == UNION {Range(ks.holders) : ks \in {y \in Db0Keys(e) : y.key = key}}
+        WaitersOf(key) == UNION {Range(ks.waiters) : ks \in {y \in Db0Keys(e) : y.key = key}}
+        Same(x, hd) == hd.lid = x.lid /\ hd.depth = x.depth /\ hd.exp = x.exp /\ hd.rid = x.rid /\ hd.ex = x.ex /\ hd.rc = x.rc
+        ChangedH == {x \in mm.lefth : Intact(x) /\ e.t + 1 < x.exp /\ ~\E hd \in HoldersOf(x.key) : Same(x, hd)}
+        OutlivedH == {x \in mm.lefth : Intact(x) /\ x.exp + 3 < e.t /\ \E hd \in HoldersOf(x.key) : hd.lid = x.lid /\ hd.exp = x.exp}
+        Granted == {x \in mm.leftw : Intact(x) /\ \E hd \in HoldersOf(x.key) : hd.lid = x.lid}
+        StillW == {x \in mm.leftw : \E w \in WaitersOf(x.key) : w.lid = x.lid /\ w.rid = x.rid /\ w.tot = x.tot}
+        \* (between two snapshots it may have been granted and the hold may have expired again: only a disappearance that
+        \* even the shortest such hold cannot explain counts)
+        ChangedW == {x \in mm.leftw : /\ Intact(x) /\ e.t + 1 < x.tot /\ x \notin Granted /\ e.t + 1 < x.seen + x.ex
+                                      /\ ~\E w \in WaitersOf(x.key) : w.lid = x.lid /\ w.rid = x.rid /\ w.tot = x.tot}
+        Show(key) == [holders |-> SetToSeq({[lid |-> hd.lid, depth |-> hd.depth, exp |-> hd.exp, rid |-> hd.rid, ex |-> hd.ex] : hd \in HoldersOf(key)}),
+                      waiters |-> SetToSeq({[lid |-> w.lid, rid |-> w.rid, tot |-> w.tot] : w \in WaitersOf(key)})]
+        m4b == Check(m4a, ChangedH = {}, "left-behind-hold-changed",
+                     [left |-> SetToSeq(ChangedH), now |-> e.t, found |-> [i \in 1..Cardinality(ChangedH) |-> Show(SetToSeq(ChangedH)[i].key)]])
+        m4c == Check(m4b, OutlivedH = {}, "left-behind-hold-outlived-its-expiry", [left |-> SetToSeq(OutlivedH), now |-> e.t])
+        m4d == Check(m4c, ChangedW = {}, "left-behind-request-changed",
+                     [left |-> SetToSeq(ChangedW), now |-> e.t, found |-> [i \in 1..Cardinality(ChangedW) |-> Show(SetToSeq(ChangedW)[i].key)]])
+        \* a left-behind request that was granted is a left-behind hold from now on (with the terms the table shows)
+        NewH == UNION {{[c |-> x.c, key |-> x.key, lid |-> hd.lid, depth |-> hd.depth, exp |-> hd.exp, rid |-> hd.rid, ex |-> hd.ex, rc |-> hd.rc] :
+                          hd \in {h \in HoldersOf(x.key) : h.lid = x.lid}} : x \in Granted}
+        \* the recycled command objects: never shared by two live lock records, never in a free pool while referenced
+        m4e == Check(m4d, ~(Has(e, "dupcmd") /\ ~mm.crashed /\ (e.dupcmd > 0 \/ e.pooled > 0)), "command-object-shared",
+                     [shared_by_live_locks |-> IF Has(e, "dupcmd") THEN e.dupcmd ELSE 0, live_and_in_a_free_pool |-> IF Has(e, "pooled") THEN e.pooled ELSE 0, now |-> e.t])
+        m4 == [m4e EXCEPT !.lefth = @ \cup NewH,
+                          !.leftw = {IF x \in StillW THEN [x EXCEPT !.seen = e.t] ELSE x : x \in (@ \ Granted)}]
         \* W2: after the drain nothing is left
         AllEnded == \A c \in DOMAIN mm.conns : mm.conns[c].st = "closed"
         Ended(c) == c \in DOMAIN mm.conns /\ mm.conns[c].st = "closed"
